@@ -119,8 +119,11 @@ def snapshots_run(tn, cfg, g, Y0):
     end of every sweep, and the tensor after the pre-iteration obtained from a separate run with nswp=0"""
     snaps = []
 
+    es = []
+
     def cb(Y, info, opts):
         snaps.append([np.array(G, copy=True) for G in Y])
+        es.append(float(info['e']))
         return False
 
     ncall = [0]
@@ -146,7 +149,7 @@ def snapshots_run(tn, cfg, g, Y0):
                          cb=cb, m_cache_scale=cfg['scale'])
             info0 = {}
             Ypre = tn.cross(lambda I: g(np.asarray(I)), [G.copy() for G in Y0], nswp=0, info=info0)
-    return dict(Y=Y, info=info, snaps=snaps, Ypre=Ypre, I_vld=I_vld, y_vld=y_vld)
+    return dict(Y=Y, info=info, snaps=snaps, es=es, Ypre=Ypre, I_vld=I_vld, y_vld=y_vld)
 
 
 # ------------------------------------------------------------------------------------------------ oracles
@@ -249,6 +252,21 @@ def oracle_info(tn, cfg, o=None):
                 s = snapshots_run(tn, cfg, g, o['Y0'])
                 if not cores_equal(s['Y'], Y):
                     return None            # not reproducible (should not happen); nothing to compare
+                # the pre-iteration re-represents Y0, so the reference of the FIRST sweep is the initial tensor itself
+                if np.prod(cfg['ns']) <= 4096:
+                    F0 = full(o['Y0'])
+                    n0 = np.linalg.norm(F0)
+                    if np.isfinite(n0) and n0 > 1e-100:
+                        dpre = np.linalg.norm(full(s['Ypre']) - F0) / n0
+                        if not dpre <= 1e-8:
+                            return _fail('the maxvol pre-iteration changed the tensor (it must re-represent Y0)', cfg,
+                                         got=float(dpre))
+                        if s['snaps'] and 0 <= s['es'][0] < 1e200:
+                            F1 = full(s['snaps'][0])
+                            e1 = np.linalg.norm(F1 - F0) / n0
+                            if abs(s['es'][0] - e1) > 1e-5 * (1 + e1) + 1e-6 * np.linalg.norm(F1) / n0:
+                                return _fail('info[e] after the first sweep is not the relative distance to the initial '
+                                             'tensor Y0', cfg, got=s['es'][0], expected=float(e1))
                 st = info['stop']
                 ended_at_sweep_end = len(s['snaps']) == info['nswp'] and st not in ('m', 'func') and len(s['snaps']) > 0 \
                     and cores_equal(s['snaps'][-1], Y)
@@ -301,7 +319,21 @@ def gen_lowrank(rng, kind=None):
         r0 = [1] + [rho[k] + rng.randint(0, 2) for k in range(1, d)] + [1]
         dr, nswp = rng.choice([(0, 0), (0, 1), (1, 1)]), rng.choice([1, 2])
     return dict(ns=ns, rho=rho, r0=r0, dr_min=dr[0], dr_max=dr[1], nswp=nswp, seed=seed, kind=kind,
-                cache=rng.random() < 0.4, vld=rng.random() < 0.3, scale=rng.choice(['1', 'big', 'small']))
+                cache=rng.random() < 0.4, vld=rng.random() < 0.3, scale=rng.choice(['1', 'big', 'small', 'p300', 'm300']))
+
+
+def gen_degenerate(rng):
+    """degenerate shapes and objectives: rho = 1 everywhere, d = 2, mode size 1, constant / zero objective, objective
+    scaled by 2^+-300"""
+    d = rng.choice([2, 2, 3, 4])
+    ns = [rng.choice([1, 1, 2, 3]) for _ in range(d)]
+    if rng.random() < 0.2:
+        ns = [1] * d
+    kind = rng.choice(['fixed', 'grow'])
+    return dict(ns=ns, rho=[1] * (d + 1), r0=[1] * (d + 1), dr_min=0 if kind == 'fixed' else 1,
+                dr_max=0 if kind == 'fixed' else rng.choice([1, 2]), nswp=rng.choice([1, 2]), seed=rng.randrange(10 ** 6),
+                kind=kind, cache=rng.random() < 0.4, vld=rng.random() < 0.3,
+                scale=rng.choice(['const', 'zero', 'p300', 'm300', '1']))
 
 
 def lowrank_target(c):
@@ -316,6 +348,14 @@ def lowrank_target(c):
         A = A * 1e6
     elif c['scale'] == 'small':
         A = A * 1e-6
+    elif c['scale'] == 'p300':
+        A = A * 2.0 ** 300
+    elif c['scale'] == 'm300':
+        A = A * 2.0 ** -300
+    elif c['scale'] == 'const':
+        A = np.full(A.shape, 2.5)
+    elif c['scale'] == 'zero':
+        A = np.zeros(A.shape)
     Y0 = [rng.normal(size=(c['r0'][k], ns[k], c['r0'][k + 1])) for k in range(len(ns))]
     return A, Y0
 
@@ -327,8 +367,9 @@ def oracle_exact(tn, c):
         return dict(what='C05: ' + what, input=dict(lowrank=c), **kw)
     A, Y0 = lowrank_target(c)
     nA = np.linalg.norm(A)
-    if not nA > 0:
-        return None
+    zero = not nA > 0
+    if zero:
+        nA = 1.0
     d = len(c['ns'])
     rngv = np.random.default_rng(c['seed'] + 7)
     I_vld = y_vld = None
@@ -383,8 +424,10 @@ def oracle_exact(tn, c):
                 return fail('rank growth (dr_min >= 1, enough sweeps) did not bring the working ranks to rho', got=rk,
                             expected=c['rho'])
             return None                # premise of the property (working ranks reached rho) not met
+        if not all(np.isfinite(G).all() for G in Y):
+            return fail(tag + 'result has non-finite entries')
         err = np.linalg.norm(full(Y) - A) / nA
-        if not err <= 1e-6:
+        if not err <= (0.0 if zero else 1e-6):
             return fail(tag + 'rank-rho target not reproduced', got=float(err), expected='<= 1e-6', ranks=rk,
                         stop=info.get('stop'), kNone=c.get('kNone'))
         if I_vld is not None and not (0 <= info['e_vld'] <= 1e-6):
@@ -541,6 +584,195 @@ def maxvol_window_bad(shape, args, npick):
     return None
 
 
+
+FORMS = ['Y0_int', 'Y0_F', 'Y0_tuple', 'Y0_noncontig', 'np_scalars', 'np_scalars32', 'zero_d', 'm_float', 'nswp_float',
+         'vld_lists', 'vld_int32_float32', 'defaults_explicit', 'Y0_lists']
+# forms outside the documented argument types: may raise, but must not silently return something else
+MAY_RAISE = {'Y0_lists'}
+
+
+def gen_forms(rng):
+    d = rng.choice([2, 3, 3, 4])
+    ns = [rng.randint(1, 4) for _ in range(d)]
+    r0 = [1] + [rng.randint(1, 3) for _ in range(d - 1)] + [1]
+    drs = rng.choice([(0, 0), (1, 1), (0, 1), (1, 2)])
+    return dict(ns=ns, r0=r0, seedY=rng.randrange(10 ** 6), m=rng.choice([None, 40, 150, 1000]),
+                e=rng.choice([None, 1e-3]), nswp=rng.choice([1, 2, 3]), dr_min=drs[0], dr_max=drs[1],
+                vld=rng.random() < 0.6, e_vld=rng.choice([None, 1e-3]), cache=rng.random() < 0.5,
+                a=[rng.randint(0, 5) for _ in range(d)], b=[rng.randint(0, 3) for _ in range(d)],
+                p=rng.choice([5, 7, 11, 13, 101]), form=rng.choice(FORMS))
+
+
+def oracle_forms(tn, c):
+    """documented argument forms give the same answer as the canonical form: initial cores with integer values given
+    as float64 C-ordered arrays (canonical) vs int64 / Fortran-ordered / non-contiguous / tuple; stop and growth
+    arguments as NumPy scalars, 0-d arrays, floats (m=1e3); validation data as lists / int32 / float32"""
+    def fail(what, **kw):
+        return dict(what='C05: ' + what, input=dict(forms=c), **kw)
+    rngy = np.random.default_rng(c['seedY'])
+    ns, r0, d = c['ns'], c['r0'], len(c['ns'])
+    Yint = [rngy.integers(-4, 5, size=(r0[k], ns[k], r0[k + 1])) for k in range(d)]
+    for G in Yint:
+        G[G == 0] = 1
+    g = lambda I: L.gfun(c['a'], c['b'], c['p'], I)
+    I_vld = y_vld = None
+    if c['vld']:
+        I_vld = np.array([[int(rngy.integers(0, n)) for n in ns] for _ in range(7)])
+        y_vld = g(I_vld)
+    e_vld = c['e_vld'] if c['vld'] else None
+    form = c['form']
+
+    def call(variant):
+        Y0 = [G.astype(float) for G in Yint]
+        kw = dict(m=c['m'], e=c['e'], nswp=c['nswp'], dr_min=c['dr_min'], dr_max=c['dr_max'], e_vld=e_vld)
+        Iv, yv = I_vld, y_vld
+        if variant:
+            if form == 'Y0_int':
+                Y0 = [G.copy() for G in Yint]
+            elif form == 'Y0_F':
+                Y0 = [np.asfortranarray(G) for G in Y0]
+            elif form == 'Y0_tuple':
+                Y0 = tuple(Y0)
+            elif form == 'Y0_lists':
+                Y0 = [G.tolist() for G in Y0]
+            elif form == 'Y0_noncontig':
+                big = [np.zeros((G.shape[0], 2 * G.shape[1], G.shape[2] + 1)) for G in Y0]
+                for Bg, G in zip(big, Y0):
+                    Bg[:, ::2, :-1] = G
+                Y0 = [Bg[:, ::2, :-1] for Bg in big]
+            elif form in ('np_scalars', 'np_scalars32', 'zero_d'):
+                it, ft = (np.int64, np.float64) if form == 'np_scalars' else (np.int32, np.float64)
+                conv = (lambda v, t: np.array(v, dtype=t)) if form == 'zero_d' else (lambda v, t: t(v))
+                for k_, t in (('m', it), ('nswp', it), ('dr_min', it), ('dr_max', it), ('e', ft), ('e_vld', ft)):
+                    if kw[k_] is not None:
+                        kw[k_] = conv(kw[k_], t)
+            elif form == 'm_float':
+                if kw['m'] is not None:
+                    kw['m'] = float(kw['m'])
+            elif form == 'nswp_float':
+                kw['nswp'] = float(kw['nswp'])
+            elif form == 'vld_lists' and Iv is not None:
+                Iv, yv = Iv.tolist(), yv.tolist()
+            elif form == 'vld_int32_float32' and Iv is not None:
+                Iv, yv = Iv.astype(np.int32), yv.astype(np.float32)
+            elif form == 'defaults_explicit':
+                kw.update(tau=1.1, tau0=1.05, k0=100, cb=None, func=None, m_cache_scale=5, log=False)
+        info = {}
+        cache = {} if c['cache'] else None
+        ncall = [0]
+
+        def f(I):
+            ncall[0] += 1
+            if ncall[0] > 3000:
+                raise L.TooLong()
+            return g(np.asarray(I))
+        with warnings.catch_warnings():
+            warnings.simplefilter('ignore')
+            with np.errstate(all='ignore'):
+                Y = tn.cross(f, Y0, info=info, cache=cache, I_vld=Iv, y_vld=yv, **kw)
+        return Y, info, cache
+
+    try:
+        Yc, ic, cc = call(False)
+    except L.TooLong:
+        return None
+    except Exception as e:  # noqa
+        return fail('cross raised on canonical arguments ' + repr(e)[:200])
+    try:
+        Yv, iv, cv = call(True)
+    except L.TooLong:
+        return None
+    except Exception as e:  # noqa
+        if form in MAY_RAISE:
+            return None
+        return fail(f'argument form {form} raised ' + repr(e)[:200])
+    for k_ in ('nswp', 'stop', 'm', 'm_cache', 'm_max'):
+        if ic[k_] != iv[k_] or type(iv[k_]) is not type(ic[k_]) and k_ in ('stop', 'm_max'):
+            return fail(f'argument form {form} changes info[{k_}]', got=repr(iv[k_]), expected=repr(ic[k_]))
+    if [np.shape(G) for G in Yc] != [np.shape(G) for G in Yv]:
+        return fail(f'argument form {form} changes the ranks', got=[list(np.shape(G)) for G in Yv])
+    Fc, Fv = full(Yc), full(Yv)
+    if not np.abs(Fc - Fv).max() <= 1e-9 * max(np.abs(Fc).max(), 1e-300):
+        return fail(f'argument form {form} changes the returned tensor', got=float(np.abs(Fc - Fv).max()))
+    for k_ in ('r', 'e', 'e_vld'):
+        a_, b_ = float(ic[k_]), float(iv[k_])
+        if not (feq(a_, b_) or abs(a_ - b_) <= 1e-6 * (abs(a_) + 1e-6)):
+            return fail(f'argument form {form} changes info[{k_}]', got=b_, expected=a_)
+    if cc != cv:
+        return fail(f'argument form {form} changes the cache')
+    return None
+
+
+def gen_objhist(rng):
+    d = rng.choice([2, 3, 3, 4])
+    ns = [rng.randint(1, 4) for _ in range(d)]
+    r0 = [1] + [rng.randint(1, 3) for _ in range(d - 1)] + [1]
+    calls = []
+    for _ in range(rng.choice([2, 3])):
+        drs = rng.choice([(0, 0), (1, 1), (0, 1), (1, 2)])
+        calls.append(dict(nswp=rng.choice([1, 2, 3]), dr_min=drs[0], dr_max=drs[1], m=rng.choice([None, None, 60, 400]),
+                          cache=rng.random() < 0.6))
+    return dict(ns=ns, r0=r0, seedY=rng.randrange(10 ** 6), vld=rng.random() < 0.6, calls=calls,
+                a=[rng.randint(0, 5) for _ in range(d)], b=[rng.randint(0, 3) for _ in range(d)],
+                p=rng.choice([5, 7, 11, 13, 101]))
+
+
+def oracle_objhist(tn, h):
+    """2-3 cross calls on the SAME Y0 / I_vld / y_vld / cache objects: the arguments stay bit-identical (the cache only
+    grows, by evaluated pairs), and every call returns what the same call returns on fresh copies (the cores also with
+    the inherited, consistent cache as long as neither m nor conv stops either run)"""
+    def fail(what, **kw):
+        return dict(what='C05: ' + what, input=dict(objhist=h), **kw)
+    g = lambda I: L.gfun(h['a'], h['b'], h['p'], I)
+    rngy = np.random.default_rng(h['seedY'])
+    ns, r0, d = h['ns'], h['r0'], len(h['ns'])
+    Y0 = [rngy.normal(size=(r0[k], ns[k], r0[k + 1])) for k in range(d)]
+    Y0s = [G.copy() for G in Y0]
+    I_vld = y_vld = None
+    if h['vld']:
+        I_vld = np.array([[int(rngy.integers(0, n)) for n in ns] for _ in range(7)])
+        y_vld = g(I_vld)
+    Is, ys = (None, None) if I_vld is None else (I_vld.copy(), y_vld.copy())
+    cache = {}
+
+    def call(c, Y0_, Iv, yv, cache_):
+        info = {}
+        with warnings.catch_warnings():
+            warnings.simplefilter('ignore')
+            with np.errstate(all='ignore'):
+                Y = tn.cross(lambda I: g(np.asarray(I)), Y0_, m=c['m'], nswp=c['nswp'], dr_min=c['dr_min'],
+                             dr_max=c['dr_max'], info=info, cache=cache_, I_vld=Iv, y_vld=yv, m_cache_scale=10 ** 9)
+        return Y, info
+
+    for k, c in enumerate(h['calls']):
+        before = dict(cache)
+        try:
+            Y, info = call(c, Y0, I_vld, y_vld, cache if c['cache'] else None)
+            Yf, inff = call(c, [G.copy() for G in Y0s], None if Is is None else Is.copy(),
+                            None if ys is None else ys.copy(), None)
+        except Exception as e:  # noqa
+            return fail('cross raised ' + repr(e)[:200], call=k)
+        if not cores_equal(Y0, Y0s) or any(G.flags.writeable is False for G in Y0):
+            return fail('cross modified its argument Y0', call=k)
+        if any(Yk is G for Yk in Y for G in Y0) or any(np.shares_memory(Yk, G) for Yk in Y for G in Y0):
+            return fail('the result shares memory with the argument Y0', call=k)
+        if Is is not None and not (np.array_equal(I_vld, Is) and np.array_equal(y_vld, ys)):
+            return fail('cross modified the validation data', call=k)
+        if any(kk not in cache or cache[kk] != v for kk, v in before.items()):
+            return fail('cross changed / dropped existing cache entries', call=k)
+        if any(cache[kk] != float(g(np.array([kk]))[0]) for kk in cache):
+            return fail('cache holds a value that is not the objective at its key', call=k)
+        if info['stop'] in ('m', 'conv') or inff['stop'] == 'm':
+            continue           # budget / cache-specific stop (all requests cached: m = 0 < m_cache): runs part ways
+        if not cores_equal(Y, Yf) or info['nswp'] != inff['nswp'] or info['stop'] != inff['stop']:
+            return fail('a call on reused argument objects (inherited cache) differs from the same call on fresh copies '
+                        'without cache', call=k, got=[info['stop'], info['nswp']], expected=[inff['stop'], inff['nswp']])
+        for k_ in ('r', 'e', 'e_vld'):
+            if not feq(info[k_], inff[k_]):
+                return fail(f'info[{k_}] differs between reused-object call and fresh call', call=k)
+    return None
+
+
 # ------------------------------------------------------------------------------------------------ correspondence
 
 def _pair_cfg(rng, small=False):
@@ -671,12 +903,16 @@ MODEL_HEADER = r"""
 From Coq Require Import List ZArith Floats Bool Arith.
 From TV Require Import Num.Ops Num.InstF Lin.Tab Lin.Mat TT.Chain Model.Cross Model.CrossNum.
 Import ListNotations.
-Definition fclose (x y : float) : bool :=
-  PrimFloat.leb (PrimFloat.abs (PrimFloat.sub x y)) (PrimFloat.mul TOL (PrimFloat.add 1 (PrimFloat.abs y))).
-Fixpoint lclose (a b : list float) : bool :=
-  match a, b with [], [] => true | x :: a', y :: b' => fclose x y && lclose a' b' | _, _ => false end.
+Definition fclose (s x y : float) : bool :=
+  PrimFloat.leb (PrimFloat.abs (PrimFloat.sub x y)) (PrimFloat.mul TOL s).
+Fixpoint lclose (s : float) (a b : list float) : bool :=
+  match a, b with [], [] => true | x :: a', y :: b' => fclose s x y && lclose s a' b' | _, _ => false end.
+Definition maxabs (l : list float) : float :=
+  fold_left (fun m x => if PrimFloat.ltb m (PrimFloat.abs x) then PrimFloat.abs x else m) l 0%float.
+(* equal up to 1e-9 of the largest entry of the recorded matrix (a zero matrix matches only itself) *)
 Definition mclose (A B : mat float) : bool :=
-  Nat.eqb (mr A) (mr B) && Nat.eqb (mc A) (mc B) && lclose (concat (md A)) (concat (md B)).
+  Nat.eqb (mr A) (mr B) && Nat.eqb (mc A) (mc B) &&
+  lclose (maxabs (concat (md A))) (concat (md A)) (concat (md B)).
 (* oracle instance: the recorded outputs of the real routine, looked up by the input matrix *)
 Fixpoint lookup {X} (tbl : list (mat float * X)) (A : mat float) (dflt : X) : X :=
   match tbl with [] => dflt | (A0, x) :: t => if mclose A0 A then x else lookup t A dflt end.
@@ -765,7 +1001,7 @@ def model_num_stream(R, ctx, tn):
     items, meta = [], []
     dist = dict(kinds={}, d={}, interrupted=0, cache=0)
     for j in range(200 if ctx['thorough'] else 36):
-        c = gen_small_growth(rng) if j % 4 == 3 else gen_lowrank(rng)
+        c = gen_small_growth(rng) if j % 4 == 3 else (gen_degenerate(rng) if j % 4 == 1 else gen_lowrank(rng))
         c['nswp'] = min(c['nswp'], rng.choice([1, 2]))
         if int(np.prod(c['ns'])) > 200 or max(c['r0']) > 4:
             continue
@@ -886,6 +1122,32 @@ def correspondence(R, ctx):
                             'same call with a fresh info', cases=nh, mismatches=len(hbad),
                        comparison='cores bitwise, nswp, stop, m, m_cache, r, e, e_vld, m_max, with_cache, cache dict',
                        distribution={}, first_mismatches=hbad[:3]))
+    fbad, nf_ = [], 0
+    for _ in range(400 if thorough else 80):
+        c = gen_forms(rng)
+        nf_ += 1
+        R.add_distinct(('forms', c))
+        fl = oracle_forms(tn, c)
+        if fl:
+            fbad.append(fl)
+    R.corr.append(dict(name='argument forms vs canonical form (int / F-ordered / non-contiguous / tuple cores, NumPy scalar '
+                            'and float stop arguments, list / int32 / float32 validation data, explicit defaults)',
+                       cases=nf_, mismatches=len(fbad),
+                       comparison='stop, nswp, m, m_cache, m_max, ranks, cache exactly; tensor to 1e-9; r, e, e_vld to 1e-6',
+                       distribution=dict(forms=FORMS, may_raise=sorted(MAY_RAISE)), first_mismatches=fbad[:3]))
+    obad, no_ = [], 0
+    for _ in range(300 if thorough else 60):
+        h = gen_objhist(rng)
+        no_ += 1
+        R.add_distinct(('objhist', h))
+        fl = oracle_objhist(tn, h)
+        if fl:
+            obad.append(fl)
+    R.corr.append(dict(name='histories on the same Y0 / I_vld / y_vld / cache objects', cases=no_, mismatches=len(obad),
+                       comparison='arguments bit-identical afterwards, no aliasing, cache only grows by objective values, '
+                                  'result bitwise equal to the call on fresh copies without cache',
+                       distribution={}, first_mismatches=obad[:3]))
+    hbad = hbad + fbad + obad
     bad_num = numeric_stream(R, ctx, tn) + model_num_stream(R, ctx, tn)
     return bad + [dict(input=['pair', f['input']]) for f in pair_bad + info_bad + hbad] + bad_num
 
@@ -910,7 +1172,7 @@ def search(R, ctx, deep, hints):
         except Exception:
             pass
     for j in range(4000 if deep else 600):
-        c = gen_small_growth(rng) if j % 3 == 2 else gen_lowrank(rng)
+        c = gen_small_growth(rng) if j % 3 == 2 else (gen_degenerate(rng) if j % 6 == 1 else gen_lowrank(rng))
         n1 += 1
         f = oracle_exact(tn, c)
         if f:
@@ -975,6 +1237,38 @@ def search(R, ctx, deep, hints):
                 break
     R.search.append(dict(name='C05 oracle: sequences of cross calls sharing one info dict / the default info vs fresh calls',
                          evaluations=n4, failures=len(fails) - k1, deep=deep))
+    # 4. argument forms, histories on the same argument objects
+    k2, n5 = len(fails), 0
+    fs, os_ = [], []
+    for h in hints[:40]:
+        try:
+            inp = h['input'][1]
+            if isinstance(inp, dict) and 'forms' in inp:
+                fs.append(inp['forms'])
+            if isinstance(inp, dict) and 'objhist' in inp:
+                os_.append(inp['objhist'])
+        except Exception:
+            pass
+    fs += [gen_forms(rng) for _ in range(600 if deep else 100)]
+    os_ += [gen_objhist(rng) for _ in range(400 if deep else 60)]
+    for c in fs:
+        n5 += 1
+        f = oracle_forms(tn, c)
+        if f:
+            f['kind'] = 'forms'
+            fails.append(f)
+            if len(fails) - k2 >= 3:
+                break
+    for h in os_:
+        n5 += 1
+        f = oracle_objhist(tn, h)
+        if f:
+            f['kind'] = 'objhist'
+            fails.append(f)
+            if len(fails) - k2 >= 5:
+                break
+    R.search.append(dict(name='C05 oracle: argument forms vs canonical form; calls on reused argument objects',
+                         evaluations=n5, failures=len(fails) - k2, deep=deep))
     return fails
 
 
@@ -985,6 +1279,22 @@ def replay(data):
     inp = p.get('input')
     if isinstance(inp, dict) and 'lowrank' in inp:
         f = oracle_exact(tn, inp['lowrank'])
+        print('replayed:', f)
+        return 1 if f else 0
+    if isinstance(inp, dict) and 'forms' in inp:
+        f = oracle_forms(tn, inp['forms'])
+        print('replayed:', f)
+        return 1 if f else 0
+    if isinstance(inp, dict) and 'objhist' in inp:
+        f = oracle_objhist(tn, inp['objhist'])
+        print('replayed:', f)
+        return 1 if f else 0
+    if isinstance(inp, dict) and 'forms' in inp:
+        f = oracle_forms(tn, inp['forms'])
+        print('replayed:', f)
+        return 1 if f else 0
+    if isinstance(inp, dict) and 'objhist' in inp:
+        f = oracle_objhist(tn, inp['objhist'])
         print('replayed:', f)
         return 1 if f else 0
     if isinstance(inp, dict) and 'history' in inp:
